@@ -495,12 +495,18 @@ def ceil_real(ex, x, what="ceil"):
 def ceil_of_quotient(ex, a, b, what="ceil"):
     """ceil(a / b) for b > 0 encoded multiplicatively: (k-1)*b < a <= k*b (see DESIGN 2.5)."""
     at, bt = term(a, "real"), term(b, "real")
+    # ceil / floor are functions: the same quotient gets the same integer (code and spec then share one term)
+    key = (what, z3.simplify(at).sexpr(), z3.simplify(bt).sexpr())
+    memo = ex.p.ghost.setdefault("quotient_ints", {})
+    if key in memo:
+        return Sym(memo[key], "int")
     k = z3.Int(ex.p.fresh_name(what))
+    memo[key] = k
     kr = z3.ToReal(k)
     if what == "ceil":
-        ex.p.assume(z3.And((kr - 1) * bt < at, at <= kr * bt))
+        ex.p.assume(z3.Implies(bt > 0, z3.And((kr - 1) * bt < at, at <= kr * bt)))
     else:
-        ex.p.assume(z3.And(kr * bt <= at, at < (kr + 1) * bt))
+        ex.p.assume(z3.Implies(bt > 0, z3.And(kr * bt <= at, at < (kr + 1) * bt)))
     return Sym(k, "int")
 
 
@@ -545,6 +551,19 @@ def seq_sum(ex, v: SeqV):
                 continue
             j = z3.Int("sumidx")
             probe = s.fn(Sym(j, "int"))
+            if isinstance(probe, bool) or (isinstance(probe, Sym) and probe.ty == "bool"):
+                # number of true entries of a boolean block of symbolic length: characterised by the facts a caller can
+                # observe through comparisons with 0, 1 and 2 (sound consequences of counting; nothing else is assumed)
+                used("sum of a boolean array == number of true entries (facts: 0 <= c <= n; c >= 1 iff some entry; c >= 2 iff two entries)")
+                c = z3.Int(ex.p.fresh_name("count"))
+                j1, j2 = z3.Int(ex.p.fresh_name("cj")), z3.Int(ex.p.fresh_name("ck"))
+                bt = zbool(unwrap_bool(probe))
+                b1, b2 = z3.substitute(bt, (j, j1)), z3.substitute(bt, (j, j2))
+                ex.p.assume(z3.And(c >= 0, c <= n))
+                ex.p.assume((c >= 1) == z3.Exists([j1], z3.And(j1 >= 0, j1 < n, b1)))
+                ex.p.assume((c >= 2) == z3.Exists([j1, j2], z3.And(j1 >= 0, j1 < j2, j2 < n, b1, b2)))
+                acc = ops.binop(ex, "+", acc, Sym(c, "int"))
+                continue
             kind = num_kind(probe)
             if kind is None:
                 raise Unsupported("sum over non-numeric block")
@@ -1106,6 +1125,18 @@ def np_all_any(which):
     inner = b_all_any(which)
 
     def f(ex, v, **kw):
+        if set(kw) == {"axis"} and kw["axis"] == 0 and isinstance(v, Arr2V):
+            # column-wise reduction: 1-D boolean array of length cols, entry j = all/any over the rows of column j
+            used(f"numpy.{which}(a, axis=0) == per-column {which} over the rows")
+            Rt = term(v.rows, "int")
+
+            def col(j, v=v):
+                i = z3.Int(ex.p.fresh_name("qr"))
+                e = zbool(unwrap_bool(ops.truthy(ex, v.fn(Sym(i, "int"), j if isinstance(j, (int, Sym)) else Sym(j, "int")))))
+                rng = z3.And(i >= 0, i < Rt)
+                return mk_bool(z3.ForAll([i], z3.Implies(rng, e)) if which == "all" else z3.Exists([i], z3.And(rng, e)))
+
+            return SeqV("array", [Blk(v.cols if isinstance(v.cols, int) else term(v.cols, "int"), col)])
         if kw:
             raise Unsupported("numpy.all/any with axis")
         if isinstance(v, bool) or (isinstance(v, Sym) and v.ty == "bool"):
